@@ -1,4 +1,14 @@
-"""C02 - minimum-image displacements (E1: cells x masks x fractional grid x lattice shifts)."""
+"""C02 - minimum-image displacements (E1: cells x masks x fractional grid x lattice shifts).
+
+Strengthened slices (docs/STRENGTHEN_TASK.md; helpers in mc/ref/c02x.py):
+  C02.scale     batch sizes 0, 1, 2, 63..65, 127..129, 255..257, 4097 (thorough up to 65537) rows in ONE call
+  C02.forms     argument forms: RIJ list / Fortran / strided / negative stride / read-only / float32 / int64 / (d,) vector,
+                hmatrix Fortran / strided / read-only / int64, ppp list / tuple / int / bool / float / read-only / default;
+                rotated, zero-diagonal, upper-triangular and general cells; no argument (nor the default ppp) may be modified
+  C02.extreme   lattice shifts up to 3e9 cells (tolerance scaled with |n|); cells with aspect ratios up to 2^20 and huge tilts
+  C02.sequence  explicit-state search over call words (2D / 3D, cells sharing shape / diagonal / determinant, argument buffers
+                overwritten in place) in forked children
+"""
 import itertools
 
 import numpy as np
@@ -152,6 +162,8 @@ def compare_frac(R, sig, out, r, s_ref, H, m, tol_rows, what=""):
     if out.dtype.kind not in "fiu" or not np.isfinite(out.astype(float)).all():
         R.fail(f"{what}non-finite / non-real result (dtype {out.dtype})", sig=dict(sig, clause="finite"))
         return False
+    if out.size == 0:
+        return True
     fo = X.frac(out, H)
     exp = s_ref - np.rint(s_ref) * m
     err = np.abs(fo - exp).max(axis=1)
@@ -173,7 +185,7 @@ def compare_frac(R, sig, out, r, s_ref, H, m, tol_rows, what=""):
 
 
 # ------------------------------------------------------------------------------------------ C02.scale
-SIZES_Q = [1, 2, 63, 64, 65, 127, 128, 129, 255, 256, 257, 4097]
+SIZES_Q = [0, 1, 2, 63, 64, 65, 127, 128, 129, 255, 256, 257, 4097]
 SIZES_T = SIZES_Q + [1023, 1024, 1025, 16385, 65537]
 
 
@@ -196,19 +208,19 @@ def run_scale(case):
     r = s @ H
     r0, H0 = r.copy(), H.copy()
     sig = {"cell": kind(H), "d": d, "masked": bool((m == 0).any()), "slice": "scale",
-           "size": "<=64" if n <= 64 else ("65..128" if n <= 128 else ">128")}
+           "size": "0" if n == 0 else "<=64" if n <= 64 else ("65..128" if n <= 128 else ">128")}
     out = remove_pbc(r, H, m)
     R.elem = n
     if not (np.array_equal(r, r0) and np.array_equal(H, H0) and np.array_equal(m, case["ppp"])):
         R.fail("an input array was modified", sig=dict(sig, clause="input_modified"))
     compare_frac(R, sig, out, r, s, H, m, np.full(n, 1e-9), what=f"n={n}: ")
     R.outcome(np.round(np.asarray(out, float), 9))
-    R.nontrivial = bool(np.abs(np.asarray(out) - r)[-1].max() > 0) if m.any() else False
+    R.nontrivial = bool(np.abs(np.asarray(out) - r)[-1].max() > 0) if (m.any() and n) else False
     return R
 
 
 # ------------------------------------------------------------------------------------------ C02.forms
-RIJ_FORMS = ["array", "list", "fortran", "rows_slice", "cols_slice", "negstride", "readonly", "float32", "int64"]
+RIJ_FORMS = ["array", "list", "fortran", "rows_slice", "cols_slice", "negstride", "readonly", "float32", "int64", "single", "single_list", "single_strided"]
 H_FORMS = ["array", "fortran", "view", "readonly", "int64"]
 PPP_FORMS = ["list", "tuple", "int64", "int32", "bool", "float", "readonly", "default"]
 NFORM = 65
@@ -259,6 +271,16 @@ def _mk_rij(form, r):
     if form == "int64":
         a = r.astype(np.int64)
         return a, a, a.copy()
+    if form == "single":  # one (d,) vector
+        a = r[0].copy()
+        return a, a, a.copy()
+    if form == "single_list":
+        a = r[0].tolist()
+        return a, np.array(a), np.array(a)
+    if form == "single_strided":  # one column of a (d, k) array
+        blk = np.full((d, 3), SENT)
+        blk[:, 1] = r[0]
+        return blk[:, 1], blk, blk.copy()
     raise ValueError(form)
 
 
@@ -317,12 +339,16 @@ def run_forms(case):
         r = s @ H
         keep = np.ones(NFORM, bool)
     tol = np.full(NFORM, 1e-6 if rf == "float32" else 1e-9) * max(1.0, condH / 4)
+    if rf.startswith("single"):
+        r, s, keep, tol = r[-1:], s[-1:], keep[-1:], tol[-1:]
     outs = []
     n_calls = 0
     for hf in H_FORMS:
         for pf in PPP_FORMS:
             if pf == "default" and not (d == 3 and m.all()):
                 continue
+            if hf == "int64" and not np.array_equal(H, np.rint(H)):
+                continue  # an integer-typed hmatrix only for integer-valued cells
             sig = {"cell": kind(H), "d": d, "masked": bool((m == 0).any()), "slice": "forms", "rij": rf, "hmatrix": hf, "ppp": pf}
             a_r, c_r, c_r0 = _mk_rij(rf, r)
             a_h, c_h, c_h0 = _mk_h(hf, H)
@@ -345,16 +371,25 @@ def run_forms(case):
             if not (np.shape(dflt) == default0.shape == (3,) and np.array_equal(np.array(dflt), default0) and np.array_equal(default0, [1, 1, 1])):
                 R.fail(f"the default value of ppp is now {dflt!r}", sig=dict(sig, clause="default_mutated"))
             o = np.asarray(out)
+            if rf.startswith("single"):
+                # a (d,) input: the statement does not fix whether (d,) or (1, d) comes back
+                if o.size != d:
+                    R.fail(f"{o.size} numbers returned for one {d}-vector", sig=dict(sig, clause="shape"))
+                    break
+                o = o.reshape(1, d)
             ok = o.shape == r.shape
             if not ok:
                 R.fail(f"shape {o.shape} != {r.shape}", sig=dict(sig, clause="shape"))
-                continue
+                break
             compare_frac(R, sig, o[keep], r[keep], s[keep], H, m, tol[keep])
             outs.append(np.round(o.astype(float), 6))
-    R.elem = n_calls * NFORM
-    # all forms of one (cell, mask, RIJ form) must also agree with each other
+            if R.viol:
+                break  # one witness per case: the first failing (hmatrix form, ppp form)
+        if R.viol:
+            break
+    R.elem = n_calls * len(r)
     R.outcome(outs[0] if outs else None)
-    R.nontrivial = bool(m.any()) and bool(keep.sum() >= NFORM // 2)
+    R.nontrivial = bool(m.any()) and bool(keep.sum() >= (len(r) + 1) // 2)
     return R
 
 
